@@ -19,7 +19,7 @@ func init() { register("C09", checkC09) }
 
 func checkC09(c *Ctx) error {
 	r := c.R
-	r.Rule = "pairs (P, P') where P is a generated core-language program (C01 generator; emphasis on 8/16-bit arithmetic near the wrap point, integer division, comparisons feeding if, constants as indices and match patterns) and P' applies at random sites the rewrites literal->call, subexpression->local, let->const, wrap-in-if-true; both compiled and run natively (thorough: also wasm for the wasm-compatible profile); accept/reject and output must agree; non-trivial = a distinct pair with >=1 rewrite applied, both accepted, both ran and agreed on >=1 line"
+	r.Rule = "pairs (P, P') where P is a generated core-language program (C01 generator; emphasis on 8/16-bit arithmetic near the wrap point, integer division, comparisons feeding if, constants as indices and match patterns) and P' applies at random sites the rewrites literal->call (also inside if/while conditions and the start/end/step of range loops), subexpression->local, let->const, wrap-in-if-true; deterministic matrix bases (sub-word operators, casts, constant flow, parameters, stepped range loops with small and near-overflow spans) are rewritten several times each; both compiled and run natively (thorough: also wasm for the wasm-compatible profile); accept/reject and output must agree; non-trivial = a distinct pair with >=1 rewrite applied, both accepted, both ran and agreed on >=1 line"
 	r.Assumptions = []string{"fixed-array index literals are not rewritten (documented rule that they be compile-time constants); a variant rejected only with T0028 would be excused", "rewrites never move expressions that can panic or have side effects"}
 	n := c.N(30, 1200)
 	gates := gatedFeatures(c)
@@ -29,7 +29,7 @@ func checkC09(c *Ctx) error {
 	var mbases []matrixProg
 	for _, mp := range matrixPrograms() {
 		switch mp.name {
-		case "ops-i8", "ops-i16", "ops-u8", "ops-u16", "ops-i32", "casts-from-i8", "casts-from-u16", "casts-from-i32", "const-flow", "params":
+		case "ops-i8", "ops-i16", "ops-u8", "ops-u16", "ops-i32", "casts-from-i8", "casts-from-u16", "casts-from-i32", "const-flow", "params", "ranges":
 			mbases = append(mbases, mp)
 		}
 	}
